@@ -360,6 +360,11 @@ class Gen:
 
     def lst(self, f, depth):
         d = self.d
+        if d.chance(0.25):
+            # a bracketed list with its own exclusion next to another alternative: [[a ! b], c] - the inner exclusion
+            # applies to a only
+            inner = ['list', [f(depth + 2)], [f(depth + 2)]]
+            return ['list', [inner] + [f(depth + 1) for _ in range(d.int(1, 2))], [f(depth + 1) for _ in range(d.int(0, 1))]]
         return ['list', [f(depth + 1) for _ in range(d.int(1, 3))], [f(depth + 1) for _ in range(d.int(0, 2))]]
 
     def text(self, pool, extra, depth=0):
